@@ -78,13 +78,10 @@ Proof. unfold fk_missing_parent. rewrite find_ct_forget. destruct (find_ct (f_re
 Lemma existsb_ext {A} (p q : A -> bool) l : (forall x, p x = q x) -> existsb p l = existsb q l.
 Proof. intros H. induction l as [|a l IH]; simpl; [reflexivity|]. rewrite H, IH. reflexivity. Qed.
 
+Lemma graph_of_forget l : graph_of (map forget_ct l) = graph_of l.
+Proof. unfold graph_of. rewrite map_map. apply map_ext. intros c. reflexivity. Qed.
 Lemma drop_blocked_forget n l : drop_blocked n (map forget_ct l) = drop_blocked n l.
-Proof.
-  unfold drop_blocked. rewrite existsb_map. apply existsb_ext. intros c. cbn [forget_ct ct_t ct_x].
-  apply existsb_ext. intros f. f_equal.
-  rewrite (existsb_ext _ _ _ (fk_missing_parent_forget l)).
-  f_equal. f_equal. apply existsb_ext. intros g. rewrite fk_missing_parent_forget. reflexivity.
-Qed.
+Proof. unfold drop_blocked. rewrite graph_of_forget. reflexivity. Qed.
 
 Lemma fk_on_delete_lift c f prows :
   match fk_on_delete c f prows with
